@@ -5,8 +5,13 @@ WT=/tmp/try_$NAME
 git -C /repo worktree remove --force $WT 2>/dev/null
 git -C /repo worktree add --detach $WT -q || exit 2
 git -C $WT apply /verif/seeded/$NAME/patch.diff || { echo "patch does not apply"; git -C /repo worktree remove --force $WT; exit 2; }
-cd /verif && YV_REPO=$WT ./check $CHK --tier $TIER 2>&1 | grep -E "VIOLATION|failed|broken" | head -5
-echo "exit=$?"
+LOG=/tmp/try_$NAME.check.log
+cd /verif && YV_REPO=$WT ./check $CHK --tier $TIER > $LOG 2>&1
+RC=$?
+grep -E "VIOLATION|failed|broken" $LOG | head -5
+# check_rc: 0 = the check passed on the changed tree (a genuine miss), 1 = violation reported,
+# anything else (or 1 without a VIOLATION line) = the trial itself went wrong: try again
+echo "check_rc=$RC"
 TAG=$(python3 -c "import hashlib;print(hashlib.sha1('$WT'.encode()).hexdigest()[:10])")
 ls /verif/.cache/alt/$TAG/replays/$CHK/ 2>/dev/null | head -3
 python3 - <<PY
